@@ -1,0 +1,52 @@
+//go:build verif
+
+package font
+
+import "sort"
+
+// Hooks for the verification harness (property C01): a font reduced to a cmap given as a map and a
+// table of variation sequences, for driving the normalizer of the shaping engine.
+
+type verifCmap map[rune]GID
+
+func (verifCmap) Iter() CmapIter { return &cmap0Iter{} }
+func (c verifCmap) Lookup(r rune) (GID, bool) {
+	g, ok := c[r]
+	return g, ok
+}
+
+// VerifVariant is one variation sequence: (Rune, Selector) maps to Glyph, or to the nominal glyph
+// of Rune when UseDefault is set.
+type VerifVariant struct {
+	Rune, Selector rune
+	Glyph          GID
+	UseDefault     bool
+}
+
+// VerifStubFace returns a face whose only tables are the given cmap and variation sequences.
+func VerifStubFace(cmap map[rune]GID, variants []VerifVariant) *Face {
+	bySel := map[rune]*variationSelector{}
+	var sels []rune
+	for _, v := range variants {
+		vs := bySel[v.Selector]
+		if vs == nil {
+			vs = &variationSelector{varSelector: v.Selector}
+			bySel[v.Selector] = vs
+			sels = append(sels, v.Selector)
+		}
+		if v.UseDefault {
+			vs.defaultUVS = append(vs.defaultUVS, unicodeRange{start: v.Rune})
+		} else {
+			vs.nonDefaultUVS = append(vs.nonDefaultUVS, uvsMapping{unicode: v.Rune, glyphID: gID(v.Glyph)})
+		}
+	}
+	sort.Slice(sels, func(i, j int) bool { return sels[i] < sels[j] })
+	var uv UnicodeVariations
+	for _, s := range sels {
+		vs := bySel[s]
+		sort.Slice(vs.defaultUVS, func(i, j int) bool { return vs.defaultUVS[i].start < vs.defaultUVS[j].start })
+		sort.Slice(vs.nonDefaultUVS, func(i, j int) bool { return vs.nonDefaultUVS[i].unicode < vs.nonDefaultUVS[j].unicode })
+		uv = append(uv, *vs)
+	}
+	return &Face{Font: &Font{Cmap: verifCmap(cmap), cmapVar: uv}}
+}
